@@ -4,6 +4,7 @@
 import Msmart.Driver.Util
 import Msmart.Model.Response
 import Msmart.Spec.FrameSpec
+import Msmart.Spec.DeviceSpec
 
 namespace Msmart.Driver
 open Msmart Msmart.Model
@@ -79,6 +80,16 @@ def acOp (op : String) (t : List String) : Option String :=
     match Spec.parseFrame (kvHex t "frame") with
     | none => some "none"
     | some p => some s!"ok dev={p.deviceType.toNat} ft={p.frameType.toNat} body={toHex p.body} id={p.msgId.toNat}"
+  | "spec_decode_setstate" =>
+    match Spec.decodeSetState (kvHex t "body") with
+    | none => some "none"
+    | some s => some s!"ok power={b01 s.power} beep={b01 s.beep} mode={s.mode} temp={s.tempHalf} fan={s.fan} swing={s.swing} eco={b01 s.eco} turbo={b01 s.turbo} sleep={b01 s.sleep} f={b01 s.fahrenheit} freeze={b01 s.freeze} follow={b01 s.followMe} pur={b01 s.purifier} hum={s.humidity} aux={s.aux}"
+  | "spec_reported" =>
+    let r := Spec.reportedOf (kvHex t "payload")
+    some s!"power={b01 r.power} mode={r.mode} temp={r.tempHalf} fan={r.fan} swing={r.swing} turbo={b01 r.turbo} eco={b01 r.eco} sleep={b01 r.sleep} f={b01 r.fahrenheit} filter={b01 r.filterAlert} display={b01 r.displayOn} follow={b01 r.followMe} pur={b01 r.purifier} aux={r.aux} hum={optStr toString r.humidity} freeze={optStr b01 r.freeze}"
+  | "spec_resp_frame" =>
+    some (toHex (Spec.respFrame (kvNat t "ft").toUInt8 (kvNat t "proto").toUInt8
+      (if kvGet t "style" = some "sum" then .sum else .crc) (kvHex t "payload")))
   | "parse_temp" => some (optStr toString (parseTemp (kvNat t "data") (kvNat t "d") (kvBool t "f")))
   | _ => none
 
